@@ -429,6 +429,17 @@ func (f *Frame) typeAssert(x *ssa.TypeAssert) {
 			}
 		}
 	}
+	upcast := false
+	if ai, isIface := x.AssertedType.Underlying().(*types.Interface); isIface && !x.CommaOk && !known {
+		// x.(I) where the static type of x already implements I (what go/ssa emits when a method
+		// value is taken from an interface value): it fails only for a nil x
+		if _, srcIface := x.X.Type().Underlying().(*types.Interface); srcIface && types.Implements(x.X.Type(), ai) {
+			nf := f.nilness(v)
+			if (nf.kind == fConst && !nf.b) || (nf.kind != fConst && f.state().entailsForm(formNot(nf))) {
+				known, upcast = true, true
+			}
+		}
+	}
 	if !x.CommaOk {
 		if _, isIface := x.AssertedType.Underlying().(*types.Interface); !isIface || true {
 			if !known {
@@ -440,6 +451,13 @@ func (f *Frame) typeAssert(x *ssa.TypeAssert) {
 		}
 		if inner != nil {
 			f.set(x, inner)
+		} else if upcast {
+			f.set(x, v) // the same value seen through the asserted interface
+		} else if _, toIface := x.AssertedType.Underlying().(*types.Interface); toIface {
+			// an assertion that did not panic yields a non-nil interface value
+			rv := f.newRef(f.key+x.Name(), x.Type())
+			f.assume(atomEQ(affSym(rv.nilSym), affConst(0)))
+			f.set(x, rv)
 		} else {
 			f.set(x, f.an.u.symbolic(f.key+x.Name(), x.Type()))
 		}
